@@ -92,7 +92,7 @@ def obligations(tier):
         for en in _enum_choices([r.pattern]):
             zs.append({'kind': 'period', 'pi': pi, 'enums': en, 'amt': [1, 0]})
     obs.append(Ob('O14.3-zero-amount', 'xh', 'harness.C14:h_zero_amount', slices=zs, timeout=t, finding='F7b',
-                  descr='region of known finding F7b: a zero duration amount formats to the empty string', bounds='amount 0', encodes=ENC[-1:]))
+                  descr='region of the repaired finding F7b (a zero duration amount formatted to the empty string): a reappearance is a violation', bounds='amount 0', encodes=ENC[-1:]))
     obs.append(Ob('O14.2-present', 'xh', 'harness.C14:h_present', timeout=t, descr='PRESENT_REF round trip', encodes=ENC[:1]))
     obs.append(Ob('O14.4-from', 'xh', 'harness.C14:h_from_date_time', timeout=t,
                   descr='Timex.from_date/from_date_time/from_time produce the canonical TIMEX of the value',
